@@ -189,10 +189,14 @@ func (s *attackSim) observeAll(got []*simrt.Arrival) {
 	for r := 0; r <= 2; r++ {
 		for _, ar := range got {
 			if rank(ar) == r {
+				if r == 2 {
+					s.afterAdvance() // the slack may have become known in this very phase
+				}
 				s.observe(ar)
 			}
 		}
 	}
+	s.afterAdvance()
 }
 
 // observe processes one arrival: model update + preconditions (= oracles).
@@ -340,7 +344,7 @@ func (s *attackSim) observeClose() {
 		if s.C != s.S {
 			s.fail("C02", "C02.close-early", "results channel closed with %d hits started but only %d results delivered", s.S, s.C)
 		}
-		if !s.anyTrigger {
+		if !s.anyTrigger && !s.durPossible {
 			s.fail("C02", "C02.close-without-trigger", "results channel closed although no stop trigger was issued")
 		}
 		for i := 0; i < s.S; i++ {
@@ -508,15 +512,27 @@ func (s *attackSim) checkQuiescent() {
 	}
 }
 
+// afterAdvance notes the duration trigger: vegeta measures from its own start instant, which lies between
+// atkStart and atkStart+startSlack (the goroutine calling Attack may have been held at a breakpoint before
+// the start instant was taken), so the trigger counts only once the duration has elapsed for certain.
 func (s *attackSim) afterAdvance() {
-	if s.cfg.Du > 0 && s.w.Now()-s.atkStart > s.cfg.Du && !s.durTrig {
+	if s.cfg.Du > 0 && s.w.Now()-s.atkStart > s.cfg.Du && !s.durPossible {
+		// possibly elapsed (certainly, if vegeta's start instant equals ours): enough to justify an end of
+		// the attack or a Stop call returning false, not enough to expect one
+		s.durPossible = true
+		if s.trigStep < 0 {
+			s.trigStep = s.w.Step
+		}
+		s.w.Log.Addf("duration possibly elapsed")
+	}
+	if s.cfg.Du > 0 && s.haveSlack && s.w.Now()-s.atkStart-s.startSlack > s.cfg.Du && !s.durTrig {
 		s.durTrig = true
 		s.trigger("duration-elapsed")
 	}
 }
 
 func (s *attackSim) suspectNoProgress() bool {
-	if s.anyTrigger || s.drain || s.S >= s.P || s.viol != nil {
+	if s.anyTrigger || s.durPossible || s.drain || s.S >= s.P || s.viol != nil {
 		return false
 	}
 	w := s.w
